@@ -99,6 +99,11 @@ def _build(d):
                         'kind': 'n', 'v': (si + 1) * 100 + r * 10 + c
                         + (0.5 if d.pick(5) == 0 else 0)}
         cells.setdefault('A1', {'kind': 'n', 'v': (si + 1) * 100 + 11})
+        if d.pick(3) == 0:
+            # far corners of the sheet (3-letter columns, the last row)
+            for far in (d.choice(['AAA1', 'ABC7', 'XFD1', 'ZZ3', 'AA2']),
+                        d.choice(['A1048576', 'XFD1048576', 'B65537'])):
+                cells[far] = {'kind': 'n', 'v': (si + 1) * 1000 + len(cells)}
         sheets.append({'name': n, 'cells': cells})
     for si, sh in enumerate(sheets):
         cells = sh['cells']
@@ -172,6 +177,10 @@ def _build(d):
         else:
             r1, c1 = d.int(1, 2), d.int(1, 2)
             r2, c2 = r1 + d.int(0, 2), c1 + d.int(0, 2)
+            if d.pick(4) == 0:
+                # a range beyond column ZZ / crossing Z|AA
+                c1 = d.choice([25, 26, 701, 702, 703, 16380])
+                c2 = c1 + d.int(1, 3)
             wbnames.append({'name': 'Rg%d' % j, 'sheet': sh['name'],
                             'rect': [r1, c1, r2, c2],
                             'ref': '%s!$%s$%d:$%s$%d' % (
@@ -351,6 +360,20 @@ def judge(case):
             if type(dfn).__name__ != 'XLRange' or dfn.cells != exp:
                 res.fail('name:range:%s' % qs, exp, repr(getattr(
                     dfn, 'cells', dfn))[:160], n['name'])
+                return res
+    # 3b. names work inside evaluation: evaluate(name) and get_cell_value
+    ev_n = xl.Evaluator(model)
+    for n in wbnames:
+        if n['sheet'] in ignore or 'a1' not in n:
+            continue
+        c = want[n['sheet'] + '!' + n['a1']]
+        if c['kind'] in ('n',):
+            try:
+                o = norm(ev_n.evaluate(n['name']))
+            except Exception as err:  # noqa: BLE001
+                o = root_exc(err)
+            if not close(o, const_tag(c), rel=0):
+                res.fail('name:evaluate', const_tag(c), o, n['name'])
                 return res
     # 4. evaluation: loaded = dict-built = reference
     if ignore:
